@@ -8,7 +8,9 @@ The Metal exporter differs from the HLSL one exactly where Metal's vector rules 
 
 * `Cast(type_id, expr)`: Metal has no vector → scalar and no vector → shorter-vector conversion, so
   `try_implicit_truncate(input_tyl, unmod_tyl, inner)` first selects `.x` / `.xy` / `.xyz` from a vector operand (decided on
-  `expr.get_type()` — `getTy` below — and the target type); then `Cast(generate_type_id(type), inner)`.  Casts to the *scalar*
+  `expr.get_type()` — `getTy` below — and the target type); then `Cast(generate_type_id(type), inner)`.  Since fix b6f2da1 a
+  one-component vector counts as the scalar it is on Metal on both sides: `.x` also for a `T1` target, and no member at all
+  on a one-component operand.  Casts to the *scalar*
   literal types are dropped; a vector of a literal type panics in `generate_scalar_type` (as in the HLSL exporter).
 * `Swizzle(object, slots)`: on a vector operand `Member(generate(object), letters)`; on a **scalar** operand (Metal has no
   members on scalars) all slots are asserted to be `X`, one slot gives the operand itself, several give the constructor
@@ -71,7 +73,8 @@ def implicitTruncate (input target : VTy) (inner : VAExpr) : VAExpr :=
   match input with
   | .vec _ inDim =>
     match target with
-    | .sc _ => .member inner truncateToScalar
+    | .sc _ => if 1 < inDim then .member inner truncateToScalar else inner
+    | .vec _ 1 => if 1 < inDim then .member inner truncateToScalar else inner
     | .vec _ 2 => if 2 < inDim then .member inner truncateToVec2 else inner
     | .vec _ 3 => if 3 < inDim then .member inner truncateToVec3 else inner
     | _ => inner
@@ -82,6 +85,26 @@ def unliteral : Ty → Ty
   | .lit => .int
   | .flit => .float
   | t => t
+
+/-- `is_plain_place` on the vector layer (fix 92d66eb), through the re-extracted table: variables, swizzles of plain places -/
+def plainPlaceV (e : VExpr) : Bool := MslDup.plainPlaceD (MslDup.toDV e)
+
+/-- `is_free_of_writes` on the vector layer (fix 35faaaa) -/
+def freeOfWritesV (e : VExpr) : Bool := MslDup.freeOfWritesD (MslDup.toDV e)
+
+/-- `!is_plain_place(&exprs[0]) || !is_free_of_writes(&exprs[1])` does not refuse -/
+def remOperandsOKV : VExprs → Except GenErr Bool
+  | .nil => .error (.panic "generate_intrinsic_op: index out of bounds")
+  | .cons a .nil => if plainPlaceV a then .error (.panic "generate_intrinsic_op: index out of bounds") else .ok false
+  | .cons a (.cons b _) => .ok (plainPlaceV a && freeOfWritesV b)
+
+/-- `exprs[0].get_type(context.module).unwrap()` -/
+def getTyHead (cx : Ctx) (vvty : Var → VTy) : VExprs → Except GenErr VTy
+  | .nil => .error (.panic "generate_intrinsic_op: index out of bounds")
+  | .cons a _ =>
+    match getTy cx vvty a with
+    | none => .error (.panic "generate_intrinsic_op: called `Result::unwrap()` on an `Err` value")
+    | some t => .ok t
 
 mutual
 /-- `generate_expression` on the vector layer -/
@@ -163,6 +186,41 @@ def genMV (cx : Ctx) (vvty : Var → VTy) : VExpr → Except GenErr VAExpr
             | .error e => .error e
             | .ok as => .ok (.call (metalLib name) as)
           else genMBinary cx vvty b args
+    | .floatAssign scalars err outer inner b =>
+      match getTyHead cx vvty args with
+      | .error e => .error e
+      | .ok t =>
+        if scalarIn scalars t.scalar then
+          match remOperandsOKV args with
+          | .error e => .error e
+          | .ok false => .error (.diag err)
+          | .ok true =>
+            match mslOpForm outer with
+            | .binary bo =>
+              match genMHead cx vvty args with
+              | .error e => .error e
+              | .ok a' =>
+                match mslOpForm inner with
+                | .floatCall name sc bi =>
+                  if scalarIn sc t.scalar then
+                    match genMArgs cx vvty args with
+                    | .error e => .error e
+                    | .ok as => .ok (.bin bo a' (.call (metalLib name) as))
+                  else
+                    match genMBinary cx vvty bi args with
+                    | .error e => .error e
+                    | .ok v => .ok (.bin bo a' v)
+                | .binary bi =>
+                  match genMBinary cx vvty bi args with
+                  | .error e => .error e
+                  | .ok v => .ok (.bin bo a' v)
+                | _ => .error (.unsupported "float assign: form of the inner operator")
+            | _ => .error (.unsupported "float assign: form of the outer operator")
+        else genMBinary cx vvty b args
+/-- `generate_expression(&exprs[0], …)` -/
+def genMHead (cx : Ctx) (vvty : Var → VTy) : VExprs → Except GenErr VAExpr
+  | .nil => .error (.panic "generate_intrinsic_op: index out of bounds")
+  | .cons a _ => genMV cx vvty a
 /-- `Form::Binary(op)` -/
 def genMBinary (cx : Ctx) (vvty : Var → VTy) (b : BinOp) : VExprs → Except GenErr VAExpr
   | .cons x (.cons y .nil) =>
